@@ -17,7 +17,7 @@ REPO = os.environ.get('PB_BSS_REPO', '/repo')
 
 
 class Case:
-    def __init__(self, name, fn, kw=None, bounds='', timeout_ms=20000, max_paths=2000, cosim=2, budget_s=600,
+    def __init__(self, name, fn, kw=None, bounds='', timeout_ms=20000, max_paths=2000, cosim=2, budget_s=400,
                  expect_exception=None, pin_tries=2, lazy=False):
         self.name, self.fn, self.kw = name, fn, dict(kw or {})
         self.bounds, self.timeout_ms, self.max_paths, self.cosim, self.budget_s = bounds, timeout_ms, max_paths, cosim, budget_s
@@ -65,6 +65,7 @@ def run_sym(prop, tier, case_name, seed):
     CTX.stats.update(queries=0, solver_s=0.0, guards=0, forks=0, unknown=0)
     stubs.STUB_CALLS.clear()
     env = Env('sym', seed=seed, timeout_ms=case.timeout_ms, pin_tries=case.pin_tries)
+    env.deadline = t0 + case.budget_s
     res = dict(case=case_name, paths=0, obls=[], candidates=[], error=None, notes=[], assumptions=[])
     _PROFILE.clear()
 
@@ -89,7 +90,10 @@ def run_sym(prop, tier, case_name, seed):
         res['error'] = 'unsupported: %s' % (e,)
     except BaseException as e:
         if type(e).__name__ == 'StopCase':
-            res['notes'] = ['exploration stopped early: %s raised on 4 paths' % (e,)]
+            if 'budget' in str(e):
+                res['error'] = 'case budget exceeded (%ds) after %d paths' % (case.budget_s, res['paths'])
+            else:
+                res['notes'] = ['exploration stopped early: %s raised on 4 paths' % (e,)]
         else:
             raise
     except Exception:
